@@ -7,7 +7,11 @@ REPO = os.environ.get("VERIF_REPO", "/repo")
 COQ = os.path.join(VERIF, "coq")
 OCAML = os.path.join(VERIF, "ocaml")
 CACHE = os.path.join(VERIF, ".cache")
-GOENV = dict(os.environ, GOFLAGS="-mod=mod", GOPROXY="off", GOSUMDB="off", GOTOOLCHAIN="local",
+# All harness families are linked into one binary; a few test packages of the repository declare the same
+# extension numbers (e.g. cmd/protoc-gen-go/testdata/extensions/proto3 and internal/testprotos/test3 both
+# extend MessageOptions with 1001).  The documented escape hatch keeps the *global* registries from panicking
+# at init; local registries (the subject of C33) never consult it.
+GOENV = dict(os.environ, GOLANG_PROTOBUF_REGISTRATION_CONFLICT="ignore", GOFLAGS="-mod=mod", GOPROXY="off", GOSUMDB="off", GOTOOLCHAIN="local",
              GOCACHE=os.environ.get("VERIF_GOCACHE", os.path.join(CACHE, "go-build")), CGO_ENABLED=os.environ.get("CGO_ENABLED", "0"))
 
 def sh(cmd, cwd=None, env=None, timeout=None, check=False, capture=True):
@@ -164,6 +168,8 @@ def build_harness(tags="verif", race=False, name=None):
     written to /repo) against /repo's current working tree."""
     ov = harness_overlay()
     name = name or ("h_" + re.sub(r"[^a-z0-9]+", "_", tags) + ("_race" if race else ""))
+    if REPO != "/repo":   # checks against another checkout (seeded regressions) get their own binaries
+        name += "_" + hashlib.sha1(REPO.encode()).hexdigest()[:8]
     out = os.path.join(CACHE, name)
     env = dict(GOENV)
     cmd = ["go", "build", "-overlay", ov, "-tags", tags, "-o", out]
@@ -173,9 +179,15 @@ def build_harness(tags="verif", race=False, name=None):
     rc, log = sh(["timeout", "900"] + cmd, cwd=REPO, env=env)
     return (out if rc == 0 else None), log
 
-def build_srcmodel():
-    out = os.path.join(CACHE, "srcmodel")
-    rc, log = sh(["timeout", "300", "go", "build", "-o", out, "."], cwd=os.path.join(VERIF, "srcmodel"), env=GOENV)
+def build_srcmodel(name=None):
+    """Tier T extractors.  Extractor X lives either in its own Go module /verif/srcmodel_X
+    (binary run as `srcmodel_X X <repo>`) or in the shared module /verif/srcmodel
+    (`srcmodel X <repo>`).  Extractors that need the repository's own packages are built
+    with a `replace` to <repo> by their own go.mod handling (they receive <repo> as argument)."""
+    d = os.path.join(VERIF, "srcmodel_" + name) if name and os.path.isdir(os.path.join(VERIF, "srcmodel_" + name)) \
+        else os.path.join(VERIF, "srcmodel")
+    out = os.path.join(CACHE, os.path.basename(d))
+    rc, log = sh(["timeout", "300", "go", "build", "-o", out, "."], cwd=d, env=GOENV)
     return (out if rc == 0 else None), log
 
 def model_stamp():
